@@ -178,6 +178,12 @@ func TestGovcReplay(t *testing.T) {
 		return c.runReplayTest("pkg/x25", map[string]string{"test.go": test}, "TestGovcReplay")
 	case fn == "(frame.V2Frame).marshalTo" || fn == "(frame.V1Frame).marshalTo" || fn == "(frame.V2Frame).GenerateChecksum" || fn == "(frame.V1Frame).GenerateChecksum":
 		return c.replayFrameFields(ns, v, m, string(oracle))
+	case strings.HasPrefix(fn, "(*message.ReadWriter).Initialize"):
+		// the counterexample is a struct TYPE (reflect model), which cannot be built from a solver model at run time:
+		// search the bounded corpus instead (408 shipped structs + malformed / boundary structs against the
+		// independent oracle) with the real code
+		return c.replayByStandin("pkg/dialects", "codec_test.go.txt", "TestGovcStandinCodec", map[string]string{"VERIF_N": "2"},
+			[]string{"size-limit", "crc-extra", "crc-extra-published", "malformed-accepted", "malformed-panics", "wellformed-refused", "initialize", "encode", "decode", "size", "panic", "v1-length"})
 	case fn == "(*frame.Writer).Initialize" || fn == "(*frame.Writer).writeFrameInner":
 		// the contract is about the marshal buffer: write the largest frames of each kind through the real writer
 		test := `package frame
@@ -228,6 +234,41 @@ func tailOf(b []byte) []byte { if len(b) > 16 { return b[len(b)-16:] }; return b
 		return c.replayStream(ns, v, m, string(oracle))
 	}
 	return ""
+}
+
+// replayByStandin runs a bounded stand-in against the real code as a SEARCH for a concrete failing input.
+func (c *checkCtx) replayByStandin(pkg, file, run string, env map[string]string, kinds []string) string {
+	src := filepath.Join(verifDir, "standins", file)
+	dst := filepath.Join(repoDir, pkg, "zz_govc_standin_test.go")
+	data, _ := json.Marshal(map[string]map[string]string{"Replace": {dst: src}})
+	ovFile := filepath.Join(scratch(), "replay-standin-overlay.json")
+	os.WriteFile(ovFile, data, 0o644)
+	cmd := exec.Command("go", "test", "-overlay", ovFile, "-vet=off", "-count=1", "-timeout", "300s", "-run", run, "-v", "./"+pkg)
+	cmd.Dir = repoDir
+	cmd.Env = goEnv()
+	for k, v := range env {
+		cmd.Env = append(cmd.Env, k+"="+v)
+	}
+	var out bytes.Buffer
+	cmd.Stdout = &out
+	cmd.Stderr = &out
+	cmd.Run()
+	want := map[string]bool{}
+	for _, k := range kinds {
+		want[k] = true
+	}
+	var keep []string
+	for _, l := range strings.Split(out.String(), "\n") {
+		if m := standinFail.FindStringSubmatch(strings.TrimSpace(l)); m != nil && (len(kinds) == 0 || want[m[1]]) {
+			if len(keep) < 5 {
+				keep = append(keep, fmt.Sprintf("REPLAY-CONFIRMED (bounded search over the stand-in corpus, real code) kind=%s item=%s %s", m[1], m[2], m[3]))
+			}
+		}
+	}
+	if len(keep) == 0 {
+		return "REPLAY-NOT-REPRODUCED by the bounded corpus search (" + run + "); the counterexample of the proof is a struct type outside the corpus"
+	}
+	return strings.Join(keep, "\n")
 }
 
 func (c *checkCtx) replayEnum(ns *NameSummary, m map[string]uint64) string {
